@@ -17,12 +17,26 @@ class PlainSub(dict):
     """A user's subclass of dict without any behaviour of its own."""
 
 
-KINDS = ("Context", "subclass", "OrderedDict")
+# Subtypes of dict the arguments are made of. The last two are the standard library's dictionary with the
+# ``__missing__`` hook (collections.defaultdict with the factories dict and int): *item access* with an
+# absent key does not raise KeyError there, it creates the item (value {} or 0 - both are values of the
+# families) in the dictionary. Which items such a dictionary holds - and so what is contained in it - is
+# what ``in``, iteration and ``==`` say; looking into it must not change it.
+# Not in the alphabet: subtypes whose __missing__ answers without storing (collections.Counter). Whether
+# an absent key "with a default" counts as an item of such a dictionary is an open point (Counter's own
+# == says that it does), so no reading is demanded there.
+KINDS = ("Context", "subclass", "OrderedDict", "defaultdict-dict", "defaultdict-int")
+MISSING_HOOK_KINDS = ("defaultdict-dict", "defaultdict-int")
 DEPTHS = ("top", "all")          # only the outermost dictionary / every nested dictionary too
 POSITIONS = ((1,), (2,), (1, 2))  # which arguments are of the type (the others are plain dicts)
 
 
 def _cls(kind):
+    """A function without arguments that makes a new empty dictionary of the type *kind*."""
+    if kind == "defaultdict-dict":
+        return lambda: collections.defaultdict(dict)
+    if kind == "defaultdict-int":
+        return lambda: collections.defaultdict(int)
     if kind == "Context":
         from lena.context import Context
         return Context
